@@ -54,6 +54,9 @@ struct State {
 }
 
 static CTL: Mutex<Option<State>> = Mutex::new(None);
+/// replay of a recorded schedule on a possibly different tree: a prescribed choice that is not
+/// enabled there falls back to the default policy instead of stopping the process
+pub static LENIENT_REPLAY: std::sync::atomic::AtomicBool = std::sync::atomic::AtomicBool::new(false);
 static CV: Condvar = Condvar::new();
 
 fn wake(st: &State, t: usize) {
@@ -142,9 +145,14 @@ fn choose(st: &mut State, at: usize, label: &'static str) {
     let chosen = if pos < st.prefix.len() {
         let c = st.prefix[pos];
         if !enabled.contains(&c) {
-            fatal(&format!("replay divergence at step {pos}: prescribed thread {c} not enabled (enabled {enabled:?})"));
+            if LENIENT_REPLAY.load(std::sync::atomic::Ordering::Relaxed) {
+                if at_enabled { at } else { enabled[0] }
+            } else {
+                fatal(&format!("replay divergence at step {pos}: prescribed thread {c} not enabled (enabled {enabled:?})"))
+            }
+        } else {
+            c
         }
-        c
     } else if at_enabled {
         at
     } else {
